@@ -1,5 +1,255 @@
-(* C04 - placeholder while the proofs are being written; replaced below. *)
-From Coq Require Import List.
-From PMS Require Import Model.Gateway.
-Theorem C04_placeholder : True. Proof. exact I. Qed.
-Print Assumptions C04_placeholder.
+(* C04 - network state mirrors what the nodes reported; callbacks are exact.  Statements only.
+   Spec: Spec/TreeMeaning.v (kind_of, meaning, alerting, meaning_line, alerted_line: hand-written,
+   trees only).  Machine: Model/Gateway.v over the GENERATED tables and handler registry.
+   Oracles (awesomeversion, float(), clock) universally quantified.
+   cfg_is v cf: cf is the configuration of protocol version v (five of them).
+   Inv: the global invariant of C01 (holds in every reachable state: C01_reachable_invariant). *)
+From Coq Require Import List NArith ZArith Bool String.
+From PMS Require Import Base.PyStr Base.PyInt Base.Exn Model.Codec Model.TableTypes Gen.Tables Model.Validate
+  Model.Oracles Model.Hex Model.Ota Model.Gateway Spec.SerialApi Proofs.ValidateProofs Proofs.GwInv
+  Spec.TreeMeaning Proofs.TreeProofs Proofs.TreeHistory Proofs.DirtyProofs Proofs.IdProofs
+  Proofs.TreeCorollaries.
+Import ListNotations.
+Open Scope Z_scope.
+
+(* which handler the generated registry resolves, per version, for every valid sub-type of
+   internal (3) and stream (4) messages, against the hand-written classification *)
+Theorem C04_registry_resolution :
+  forall v s,
+    (between 0 (max_sub v 3) s = true -> okind (sub_handler (tab_of v) 3 s) = internal_kind v s) /\
+    (between 0 (max_sub v 4) s = true -> stream_ok (sub_handler (tab_of v) 4 s) s = true) /\
+    vt_max_node (tab_of v) = 254.
+Proof.
+  intros v s. split; [apply registry_internal|]. split; [apply registry_stream|apply registry_max_node].
+Qed.
+
+(* C04.2: one dispatcher call, all five configurations, all oracles, every state with the
+   invariant, every line: the WHOLE tree afterwards is the meaning of the line *)
+Theorem C04_logic_tree_meaning :
+  forall orc clock v g l g' r, cfg_is v (g_cf g) -> Inv orc g ->
+    logic orc clock g l = Ok (g', r) ->
+    proj (g_sensors g') =
+    meaning_line (safe_version orc) (gvalidate orc g) v (proj (g_sensors g)) l.
+Proof. exact logic_tree_meaning. Qed.
+
+(* histories, asyncio flavour *)
+Theorem C04_tree_async :
+  forall orc clock v cf ls, cfg_is v cf -> cf_async cf = true ->
+    proj (g_sensors (run orc clock (gw_init cf) (map Recv ls))) = fold_left (mlv orc v) ls [].
+Proof. exact tree_async. Qed.
+
+Theorem C04_tree_async_ops :
+  forall orc clock v cf ops, cfg_is v cf -> Forall op_ok ops -> cf_async cf = true ->
+    proj (g_sensors (run orc clock (gw_init cf) ops)) = fold_left (mlv orc v) (recv_lines ops) [].
+Proof. exact tree_async_ops. Qed.
+
+(* histories, both flavours, ANY placement of pump iterations and controller calls: processing
+   the still-queued lines (FIFO) from the current tree gives the meaning of all received lines *)
+Theorem C04_tree_is_fold_of_meaning :
+  forall orc clock v cf ops, cfg_is v cf -> Forall op_ok ops ->
+    let g := run orc clock (gw_init cf) ops in
+    fold_left (mlv orc v) (pending g) (proj (g_sensors g)) = fold_left (mlv orc v) (recv_lines ops) [].
+Proof. exact tree_is_fold_of_meaning. Qed.
+
+Theorem C04_tree_threaded_drained :
+  forall orc clock v cf ops, cfg_is v cf -> Forall op_ok ops ->
+    pending (run orc clock (gw_init cf) ops) = [] ->
+    proj (g_sensors (run orc clock (gw_init cf) ops)) = fold_left (mlv orc v) (recv_lines ops) [].
+Proof. exact tree_threaded_drained. Qed.
+
+(* frame: controller calls and queued send jobs do not touch the tree (nor the dirty flag) *)
+Theorem C04_controller_ops_frame :
+  forall orc clock g o, Inv orc g ->
+    match o with Recv _ | Pump => False | _ => True end ->
+    proj (g_sensors (step orc clock g o)) = proj (g_sensors g) /\
+    g_dirty (step orc clock g o) = g_dirty g.
+Proof. exact controller_ops_frame. Qed.
+
+Theorem C04_send_job_frame :
+  forall orc clock g l rest, g_jobs g = JSend l :: rest ->
+    proj (g_sensors (pump orc clock g)) = proj (g_sensors g) /\ g_dirty (pump orc clock g) = g_dirty g.
+Proof. exact send_job_frame. Qed.
+
+(* corollaries of the meaning function *)
+Theorem C04_child_frame :
+  forall sv k t m n c,
+    child_of (meaning sv k t m) n c =
+    if is_child_pres k && (n =? m_node m) && (c =? m_child m) && known t n && negb (known_child t n c)
+    then Some (mkPChild (m_child m) (m_sub m) (m_payload m) [])
+    else if is_set k && (n =? m_node m) && (c =? m_child m)
+    then option_map (fun ch => mkPChild (pc_id ch) (pc_type ch) (pc_desc ch)
+                                        (zset (m_sub m) (PS (m_payload m)) (pc_values ch)))
+                    (child_of t n c)
+    else child_of t n c.
+Proof. exact child_frame. Qed.
+
+Theorem C04_value_is_last_reported :
+  forall sv k t m n c s,
+    value_of (meaning sv k t m) n c s =
+    if is_set k && (n =? m_node m) && (c =? m_child m) && (s =? m_sub m) && known_child t n c
+    then Some (PS (m_payload m)) else value_of t n c s.
+Proof. exact value_frame. Qed.
+
+Theorem C04_first_presentation_wins :
+  forall orc v ls t n c ch, child_of t n c = Some ch ->
+    exists ch', child_of (fold_left (mlv orc v) ls t) n c = Some ch' /\
+                pc_id ch' = pc_id ch /\ pc_type ch' = pc_type ch /\ pc_desc ch' = pc_desc ch.
+Proof. exact fold_first_presentation. Qed.
+
+Theorem C04_second_presentation_ignored :
+  forall sv t m, known_child t (m_node m) (m_child m) = true -> meaning sv KChildPres t m = t.
+Proof. exact second_presentation_ignored. Qed.
+
+Theorem C04_unknown_target_ignored :
+  forall sv t m,
+    (known t (m_node m) = false -> meaning sv KChildPres t m = t) /\
+    (known_child t (m_node m) (m_child m) = false -> meaning sv KSet t m = t).
+Proof. exact unknown_target_ignored. Qed.
+
+Theorem C04_nodes_only_by_presentation_or_id :
+  forall orc clock v g l g' r k, cfg_is v (g_cf g) -> Inv orc g ->
+    logic orc clock g l = Ok (g', r) ->
+    zhas k (g_sensors g') = true -> zhas k (g_sensors g) = false ->
+    exists m, decode l = Some m /\ gvalidate orc g m = true /\
+              ((m_type m = 0 /\ m_child m = 255 /\ k = m_node m) \/
+               (m_type m = 3 /\ m_sub m = 3 /\ k = tnext (proj (g_sensors g)) /\ k <= 254)).
+Proof. exact nodes_only_by_presentation_or_id. Qed.
+
+(* C04.3: the callback events appended by one dispatcher call: none, or exactly one, carrying the
+   decoded inbound message and the tree AFTER the update; one iff the line is accepted and
+   `alerting` (and a callback is configured) *)
+Theorem C04_callback_exact :
+  forall orc clock v g l g' r, cfg_is v (g_cf g) -> Inv orc g ->
+    logic orc clock g l = Ok (g', r) ->
+    exists ext, g_log g' = g_log g ++ ext /\
+      cbs ext = match alerted_line (gvalidate orc g) v (proj (g_sensors g)) l with
+                | Some m => if cf_callback (g_cf g) then [ECallback m (proj (g_sensors g'))] else []
+                | None => []
+                end.
+Proof. exact callback_exact. Qed.
+
+Theorem C04_alerted_line_spec :
+  forall acc v t l m, alerted_line acc v t l = Some m <->
+    decode l = Some m /\ acc m = true /\ alerting v t m = true.
+Proof. exact alerted_line_spec. Qed.
+
+Theorem C04_callback_never_twice :
+  forall orc clock v g l g' r, cfg_is v (g_cf g) -> Inv orc g ->
+    logic orc clock g l = Ok (g', r) ->
+    exists ext, g_log g' = g_log g ++ ext /\ (List.length (cbs ext) <= 1)%nat /\
+                (cf_callback (g_cf g) = false -> cbs ext = []).
+Proof. exact callback_never_twice. Qed.
+
+(* exactly once for every accepted STATE-CHANGING message *)
+Theorem C04_changed_alerts :
+  forall orc clock v g l g' r, cfg_is v (g_cf g) -> Inv orc g ->
+    logic orc clock g l = Ok (g', r) -> proj (g_sensors g') <> proj (g_sensors g) ->
+    exists m ext, decode l = Some m /\ gvalidate orc g m = true /\
+                  alerting v (proj (g_sensors g)) m = true /\
+                  g_log g' = g_log g ++ ext /\
+                  cbs ext = (if cf_callback (g_cf g) then [ECallback m (proj (g_sensors g'))] else []).
+Proof. exact changed_alerts. Qed.
+
+Theorem C04_changed_implies_alerting :
+  forall sv k t m, meaning sv k t m <> t -> alerting_k k t m = true.
+Proof. exact changed_implies_alerting. Qed.
+
+(* ... the converse is false (honest reading): gateway-ready, stream requests of known nodes and
+   a repeated identical value alert although the tree does not change *)
+Theorem C04_alerting_without_change :
+  forall sv t m,
+    meaning sv KGatewayReady t m = t /\ alerting_k KGatewayReady t m = true /\
+    meaning sv KStreamReq t m = t /\ alerting_k KStreamReq t m = known t (m_node m) /\
+    (known_child t (m_node m) (m_child m) = true ->
+     value_of t (m_node m) (m_child m) (m_sub m) = Some (PS (m_payload m)) ->
+     meaning sv KSet t m = t /\ alerting_k KSet t m = true).
+Proof. exact alerting_without_change. Qed.
+
+(* the callback log of a whole history (both flavours, once no line is queued): one event per
+   alerting accepted line, in order, each with the tree after that line *)
+Theorem C04_callbacks_history :
+  forall orc clock v cf ops, cfg_is v cf -> Forall op_ok ops ->
+    pending (run orc clock (gw_init cf) ops) = [] ->
+    cbs (g_log (run orc clock (gw_init cf) ops)) =
+    snd (fold_left (astep orc v (cf_callback cf)) (recv_lines ops) ([], [])).
+Proof. exact callbacks_drained. Qed.
+
+(* a raising callback: Gateway.alert is the only place the callback is invoked (C04_callback_exact
+   accounts for every callback event), it catches everything, and its model is this total
+   function: there is no outcome of the callback on which anything could depend *)
+Theorem C04_callback_raise_irrelevant :
+  forall g m,
+    g_cf (alert g m) = g_cf g /\ g_sensors (alert g m) = g_sensors g /\ g_ota (alert g m) = g_ota g /\
+    g_metric (alert g m) = g_metric g /\ g_jobs (alert g m) = g_jobs g /\
+    g_dirty (alert g m) = (cf_persist (g_cf g) || g_dirty g) /\
+    g_log (alert g m) = g_log g ++ (if cf_callback (g_cf g) then [ECallback m (proj (g_sensors g))] else []).
+Proof. exact callback_raise_irrelevant. Qed.
+
+(* C04.4 *)
+Theorem C04_setters_fallback :
+  forall orc p,
+    (battery_of p = match parse p with
+                    | Some z => if (0 <=? z) && (z <=? 100) then z else 0
+                    | None => 0
+                    end) /\
+    0 <= battery_of p <= 100 /\
+    (heartbeat_of p = match parse p with Some z => z | None => 0 end) /\
+    (safe_version orc p = if orc_version orc p then p else s2p "1.4") /\
+    (forall z, 0 <= z <= 100 -> battery_of (print z) = z) /\
+    (forall z, heartbeat_of (print z) = z).
+Proof. exact setters_fallback. Qed.
+
+(* non-vacuity *)
+Example C04_cfg_exists : cfg_is V22 (mkConfig tab_22 true true true true) /\
+                         cfg_is V14 (mkConfig tab_14 false false true false).
+Proof. repeat split. Qed.
+
+(* a history: node, child, value, second presentation (ignored), newer value, battery, a value
+   for an unknown node (ignored), gateway ready (alerts, no change) *)
+Definition C04_h : list pstr :=
+  [s2p "1;255;0;0;3;x"; s2p "1;4;0;0;6;temp"; s2p "1;4;1;0;0;21.5"; s2p "1;4;0;0;7;hum";
+   s2p "1;4;1;0;0;22"; s2p "1;255;3;0;0;77"; s2p "2;4;1;0;0;5"; s2p "0;255;3;0;14;ready"].
+
+Example C04_history_tree :
+  let cf := mkConfig tab_22 true true true true in
+  let g := run no_oracles 0 (gw_init cf) (map Recv C04_h) in
+  proj (g_sensors g) =
+    [(1, mkPNode 1 [(4, mkPChild 4 6 (s2p "temp") [(0, PS (s2p "22"))])] (Some 3) None None 77 (s2p "1.4") 0)] /\
+  List.length (cbs (g_log g)) = 6%nat /\
+  fold_left (mlv no_oracles V22) C04_h [] = proj (g_sensors g).
+Proof. vm_compute. repeat split. Qed.
+
+(* threaded flavour, lines queued and pumped later, with a controller call in between *)
+Example C04_history_threaded :
+  let cf := mkConfig tab_20 true false true false in
+  let ops := [Recv (s2p "1;255;0;0;3;x"); Recv (s2p "1;4;0;0;6;temp"); Pump; SetMetric false;
+              Recv (s2p "1;4;1;0;0;21.5"); Pump; Pump] in
+  let g := run no_oracles 0 (gw_init cf) ops in
+  pending g = [] /\
+  proj (g_sensors g) =
+    [(1, mkPNode 1 [(4, mkPChild 4 6 (s2p "temp") [(0, PS (s2p "21.5"))])] (Some 3) None None 0 (s2p "1.4") 0)].
+Proof. vm_compute. split; reflexivity. Qed.
+
+Print Assumptions C04_registry_resolution.
+Print Assumptions C04_logic_tree_meaning.
+Print Assumptions C04_tree_async.
+Print Assumptions C04_tree_async_ops.
+Print Assumptions C04_tree_is_fold_of_meaning.
+Print Assumptions C04_tree_threaded_drained.
+Print Assumptions C04_controller_ops_frame.
+Print Assumptions C04_send_job_frame.
+Print Assumptions C04_child_frame.
+Print Assumptions C04_value_is_last_reported.
+Print Assumptions C04_first_presentation_wins.
+Print Assumptions C04_second_presentation_ignored.
+Print Assumptions C04_unknown_target_ignored.
+Print Assumptions C04_nodes_only_by_presentation_or_id.
+Print Assumptions C04_callback_exact.
+Print Assumptions C04_alerted_line_spec.
+Print Assumptions C04_callback_never_twice.
+Print Assumptions C04_changed_alerts.
+Print Assumptions C04_changed_implies_alerting.
+Print Assumptions C04_alerting_without_change.
+Print Assumptions C04_callbacks_history.
+Print Assumptions C04_callback_raise_irrelevant.
+Print Assumptions C04_setters_fallback.
